@@ -357,6 +357,25 @@ def replace_all_uses_with(
         replacements = (replacements,)
     if len(values) != len(replacements):
         raise ValueError("The number of values and replacements must match.")
+    # Validate every pair before changing anything, so that a rejected call has no effect
+    new_output_owner: dict[int, _core.Graph] = {}
+    for value, replacement in zip(values, replacements):
+        if not value.is_graph_output():
+            continue
+        graph = value.graph
+        assert graph is not None
+        if not replace_graph_outputs:
+            raise ValueError(
+                f"{value!r} is an output of graph {graph.name!r}. "
+                "Set replace_graph_outputs=True or replace the graph output frist before "
+                "calling replace_all_uses_with."
+            )
+        graph.outputs._check_graph(replacement)  # pylint: disable=protected-access
+        if new_output_owner.setdefault(id(replacement), graph) is not graph:
+            raise ValueError(
+                f"{replacement!r} cannot replace outputs of two different graphs "
+                f"({new_output_owner[id(replacement)].name!r} and {graph.name!r})."
+            )
     for value, replacement in zip(values, replacements):
         value.replace_all_uses_with(replacement, replace_graph_outputs=replace_graph_outputs)
 
